@@ -22,7 +22,9 @@ def getInput (j : Json) : Except String PMInput := do
   let cells ← cellsJ.mapM (fun cj => do let a ← cj.getArr?; a.toList.mapM (·.getNat?))
   let maps ← getMappingLists j "maps"
   let posJ ← getArr j "pos"
-  let pos ← posJ.mapM (fun pj => do let a ← pj.getArr?; a.toList.mapM parseRat)
+  let pos ← posJ.mapM (fun pj => do
+    let comps ← pj.getArr?
+    comps.toList.mapM (fun cj => do let a ← cj.getArr?; a.toList.mapM parseRat))
   pure { dtypeKind := ← getStr j "kind", dtypeName := ← getStr j "name", dtypeStr := ← getStr j "dtype",
          itemsize := ← getNat j "itemsize", ndim := ← getNat j "ndim", n := n, r := r, c := c, m := m,
          cell := cellFn cells (r * c) m, nested := ← getBool j "nested", nMappingLists := ← getNat j "nMappingLists",
@@ -52,7 +54,28 @@ def answer (o : PMObject) (q : Json) : Except String Json := do
     pure (exceptToJson (fun (ms : List Mapping) => labelsJson (some ms)) (attachedMappings o f))
   else throw s!"unknown query {kind}"
 
+def getFrame (j : Json) : Except String Frame := do
+  let dn ← getStr j "dtype"
+  match DType.ofName dn with
+  | none => throw s!"unknown dtype {dn}"
+  | some d =>
+    let s ← getOptInt j "samples"
+    pure ⟨← getNat j "rows", ← getNat j "cols", s.map Int.toNat, d, ← getIntList j "data"⟩
+
+/-- stand-in for the encapsulated codecs (abstract in the model) -/
+def noCodec : CodecImpl := ⟨fun _ _ => .error .other, fun _ _ _ _ _ => .error .other⟩
+
 def handlers : List (String × Handler) := [
+  ("scBuild", fun j => do
+    let ts ← getStr j "ts"
+    match scBuild noCodec ts (← getStr j "pi") (← getInt j "ba") (← getFrame j) with
+    | .error e => pure (Json.mkObj [("err", Json.str e.toString)])
+    | .ok o =>
+      pure (Json.mkObj [("ok", Json.mkObj [
+        ("module", intsToJson [o.bitsAllocated, o.bitsStored, o.highBit, o.pixelRepresentation, o.samplesPerPixel,
+                               match o.planarConfiguration with | none => -1 | some p => p]),
+        ("bytes", natsToJson o.frameBytes),
+        ("decoded", exceptToJson intsToJson (scDecode noCodec id ts o))])])),
   ("pm", fun j => do
     let x ← getInput j
     match build x with
@@ -65,8 +88,8 @@ def handlers : List (String × Handler) := [
         ("hb", (o.highBit : Json)), ("pr", (o.pixelRepresentation : Json)), ("rows", (o.rows : Json)),
         ("cols", (o.cols : Json)), ("frames", (o.numberOfFrames : Json)), ("pixelData", natsToJson o.pixelData),
         ("shared", labelsJson o.shared),
-        ("perFrame", Json.arr (o.perFrame.map (fun rec => Json.mkObj [("pos", ratsToJson rec.position),
-          ("div", (rec.dimensionIndex : Json)), ("maps", labelsJson rec.mappings)])).toArray),
+        ("perFrame", Json.arr (o.perFrame.map (fun rec => Json.mkObj [("pos", Json.arr (rec.position.map ratsToJson).toArray),
+          ("div", natsToJson rec.dimensionIndex), ("maps", labelsJson rec.mappings)])).toArray),
         ("answers", Json.arr ans.toArray)])])),
   ("scPixelModule", fun j => do
     let r := scPixelModule (← getInt j "ba") (← getStr j "pi") (← getStr j "ts") (← getStr j "dtype") (← getInt j "ndim")
